@@ -82,7 +82,9 @@ TItPos ==
                <<\A k \in s.stable : k >= s.from => k \in s.seen, "C15:the iterator skipped an item that was present during the whole scan">> >>), "BAD")
   /\ UNCHANGED <<pIns, pDel, defP, defA, known, pendK>>
 TDone == l = N + 1 /\ UNCHANGED avars
-TNext == TReset \/ TSkip \/ TCall \/ TRet \/ TItCall \/ TItPos \/ TDone
+TPanic == /\ l <= N /\ Ev.e = "Panic" /\ l' = l + 1 /\ UNCHANGED <<pIns, pDel, defP, defA, known, sc, pendK>>
+          /\ bad' = Note(bad, "C15:the skiplist panicked on a legal call sequence: " \o Ev.msg \o " (" \o Ev.where \o ")", "BAD")
+TNext == TReset \/ TSkip \/ TCall \/ TRet \/ TItCall \/ TItPos \/ TPanic \/ TDone
 TSpec == TInit /\ [][TNext]_avars
 Good == bad = ""
 =============================================================================
